@@ -78,7 +78,18 @@ func TestMain(m *testing.M) {
 			"half of the cases) or 1 byte / the 2-byte frame header / a drawn number of bytes / all but the last 1-4 bytes of the next message, then ends that TCP stream with a FIN (no WebSocket close frame) and swallows the rest; the writer's Writes all succeed. "+
 			"A TCP stream that ends without a close frame is visibly cut short at every position, so here the rule has no exception: the reader gets only a prefix, at most the plaintext of the messages that arrived whole (sizes measured by the proxy), "+
 			"and its first error is not io.EOF. Labels ws-cut:*, ws-cut-dir:*. "+
-			"DISTINCT = distinct structured plan (lengths, splits, read specs, chunk patterns, capacity, tamper, deadline schedule, idle periods, handler style, negotiation timeout, transport).",
+			"PLAINTEXT SECURITY TRANSPORT: the upgrader stack, host and WebSocket-stack tests draw the security transport from Noise (2/5), TLS (2/5) and the plaintext transport p2p/security/insecure (1/5; what a node configured with NoSecurity runs in that place; "+
+			"its handshake cannot carry the muxer choice, so the muxer is chosen by multistream); fidelity oracle only, as for pnet. "+
+			"DATA RIGHT AFTER THE HANDSHAKE (TestL13DataRightAfterHandshake; plaintext 1/2, Noise 1/4, TLS 1/4; same length / Write-size / read-buffer / short-read / pipe-capacity / pacing generators as L1-L3): each end runs its own handshake and starts its writer and reader "+
+			"the moment that handshake has returned (the L1-L3 tests wait for both ends first), and each end draws a read lag (none / 1 ms / 50 ms of virtual time before each of its first 1-6 Reads of the raw connection), so that the peer's last handshake message and its first payload bytes are already "+
+			"queued together when the lagging end reads and one Read of the raw connection may return both (a byte stream may merge Writes as well as split them). Labels early:<layer>:data-behind-handshake (one end lags, the other does not and sends a non-empty payload), "+
+			"...,one-Read-may-return-both (and the lagging end's first raw Read is not cut short by the short-read pattern), early:both-ends-read-late, early:no-lag(scheduler-decides); such a case counts as non-trivial. "+
+			"MOCK NETWORK AS TRANSPORT (TestL4MocknetStreams, virtual time): two BasicHosts on a p2p/net/mock network joined by one link whose latency is drawn from 0 / 1 ms / 10 ms / 100 ms / 2 s; 1-3 streams through Host.NewStream / SetStreamHandler "+
+			"(eager or lazy negotiation, handler styles as in the host test; mock streams ignore deadlines, so no deadline classes), both directions concurrently, half-close at the end of each direction, same stream oracle. In 2 of 3 directions the Write sizes are drawn around the "+
+			"256-byte coalescing buffer of a mock stream (0,1,2,10,16,56,100,127..129,200,246,254..257,300,512,1000,4096,70000; 1-12 Writes), otherwise by the common generator; 1 of 3 directions has a pausing writer (3 ms / 25 ms between calls, i.e. shorter or longer than the latency) or a slow reader. "+
+			"Labels mocknet:latency=*, mocknet:small-writes-then-buffer-filling-write (some Write takes the bytes buffered since the last filling Write from below 256 to 256 or more), mocknet:small-then-filling-write,latency>0 (non-trivial), mocknet:writer-pauses-within/longer-than-latency, "+
+			"mocknet:whole-payload-below-buffer, mocknet:first-write>=buffer. "+
+			"DISTINCT = distinct structured plan (lengths, splits, read specs, chunk patterns, capacity, tamper, deadline schedule, idle periods, handler style, negotiation timeout, transport, security transport, link latency, read lag).",
 		"the in-memory pipe (internal/memnet) and the chunking wrapper deliver bytes faithfully; they are checked by the same oracle in the pnet layer where nothing else could repair an error",
 		"frame sizes of each layer (Noise 65519, TLS 16384, yamux 65524) are used only to aim the generator and to label cases, never in the verdict of untampered cases",
 		"tamper verdicts rely on the wire framing (Noise: 2-byte length prefix, 16-byte tag; TLS 1.3: 5-byte header, 17 bytes overhead) to locate the first tampered frame's plaintext offset (an upper bound for TLS)",
@@ -86,6 +97,7 @@ func TestMain(m *testing.M) {
 		"the WebSocket tests use real loopback sockets: a connection on 127.0.0.1 neither loses nor damages bytes by itself; a set-up failure or a stall of 3 real minutes is inconclusive, never a violation; if the transport cannot listen on loopback the tests are skipped and labelled config-unavailable:websocket; their labels and non-trivial verdicts are computed from the plan only, so the evidence does not depend on socket timing",
 		"L6 (real loopback sockets: TCP, WebSocket, QUIC, WebTransport, WebRTC-direct, and TCP/WS behind the shared TCP listener) runs in the thorough tier only, with the default stack of each transport; a configuration that cannot be set up in the environment is skipped and labelled config-unavailable",
 		"streams of one muxed connection are accepted in the order in which their first frames were sent (L4, L5 upgrader); host-level layers route streams by protocol id instead",
+		"the 256-byte coalescing buffer of a mock stream is used only to aim the Write sizes and to label cases, never in a verdict; mocknet hosts run with the configuration mocknet gives them (no negotiation timeout, identify running)",
 		"deadline cases: a reader that polls with an expired read deadline gets at most the initial stream window (256 KiB, minus 1 KiB at host level for protocol negotiation) of payload: go-yamux accounts a window update locally and then drops it when the deadline has expired (stream.go sendWindowUpdate/GrowTo), so such a reader never grants new credit and a longer payload stalls -- a liveness matter of the dependency outside the statement, not generated",
 		"deadline cases: no deadline on the opener's end of a lazily negotiated stream (a timeout inside the lazy multistream handshake fails the stream for good, by design); no write deadlines and (Noise, pnet) no read deadlines on bare secured connections: a frame is atomic on the wire and their readers do not keep a partially read frame across calls, so a timed-out call cannot be resumed there (with the error reported, not wrong bytes, on the authenticated ones)",
 	)
